@@ -135,15 +135,20 @@ class TaskResult:
         self.functions = {}
         self.assumptions = set()
         self.crash = None
+        self.learned = None
 
     def to_json(self):
         return {"task": self.name, "paths": self.paths, "restarts": self.restarts, "wall_s": round(self.wall, 3),
                 "obligations": [o.to_json() | ({"model": o.model} if o.model else {}) for o in self.obs],
-                "functions": self.functions, "assumptions": sorted(self.assumptions), "crash": self.crash}
+                "functions": self.functions, "assumptions": sorted(self.assumptions), "crash": self.crash, "learned": self.learned}
 
 
 class Task:
-    def __init__(self, world, func, contract, name=None, goal_timeout_ms=10000, branch_timeout_ms=3000, max_paths=4000, params=None, max_failures=None):
+    def __init__(self, world, func, contract, name=None, goal_timeout_ms=10000, branch_timeout_ms=3000, max_paths=4000, params=None, max_failures=None,
+                 shard=None, preload=None):
+        # shard = (first decision index, bit pattern): this task explores only the paths whose decisions in that window equal the pattern;
+        # the tasks for all patterns of the window together cover every path (paths shorter than the window are explored by several)
+        self.shard = shard
         self.world = world
         self.func = func
         self.con = contract
@@ -161,6 +166,13 @@ class Task:
             self.params.update(params)
         self.learned = {}
         self.promote_serials = set()
+        if preload:
+            # what other shards of the same function learnt about its loops (which arrays / fields a loop body writes, which lists become heap
+            # lists): a shard that never executes the writing branch must havoc them all the same (see props/common.run_sharded)
+            import ast as _ast
+            for k, d in preload.get("loops", {}).items():
+                self.learned[_ast.literal_eval(k) if isinstance(k, str) else k] = {"arrays": set(d["arrays"]), "fields": set(tuple(x) for x in d["fields"])}
+            self.promote_serials = set(preload.get("promote", ()))
         self.worklist = []
         self.rec_measure = None
         self.arg_terms = {}
@@ -336,6 +348,8 @@ class Task:
                     break
                 continue
         self.res.wall = time.time() - t0
+        self.res.learned = {"loops": {repr(k): {"arrays": sorted(d["arrays"]), "fields": sorted(list(x) for x in d["fields"])} for k, d in self.learned.items()},
+                            "promote": sorted(self.promote_serials)}
         from . import interp as _interp
         for si in list(_interp._SRCINFO.values()):
             if getattr(si, "alpha", None):
@@ -428,7 +442,9 @@ class Task:
         except RecursionError:
             c.obs.append(ObRec(f"{name}/engine-recursion", "undecided", 0.0, "engine recursion limit", path=c.path_id))
         full = "".join("T" if d else "F" for d in c.log)
-        if os.environ.get("PYVC_TRACE"):
+        if os.environ.get("PYVC_TRACE") == "tags":
+            print("[pyvc] " + " ".join(f"{i}:{tg}={'T' if d else 'F'}" for i, (tg, d) in enumerate(c.trace)), flush=True)
+        elif os.environ.get("PYVC_TRACE"):
             bad = [o for o in c.obs if o.status != "proved"]
             print(f"[pyvc] {self.name} path {full} obs={len(c.obs)} bad={len(bad)} t={sum(o.time for o in c.obs):.1f}s " + " ".join(o.name.split('/')[-1] + ":" + o.status for o in bad[:4]), flush=True)
         for o in c.obs:
